@@ -60,9 +60,9 @@ def gen_case(rnd):
     if mixed:
         # keys whose %v texts coincide across kinds ("1" vs 1): Compare treats them as equal, so must the hash path
         for row in l:
-            row["a"] = rnd.choice([1, "1", 2, "2"])
+            row["a"] = rnd.choice([1, "1", 2, "2", "1.0", 10, "9", "10"])
         for row in r:
-            row["m"] = rnd.choice([1, "1", 2, "2", 3])
+            row["m"] = rnd.choice([1, "1", 2, "2", 3, "01", 9, "10", "2.0"])
     spelling = rnd.choice(list(JOIN_KINDS))
     eq_only = rnd.random() < 0.45
     on = gen_on(rnd, rnd.randint(0, 2), eq_only)
